@@ -79,6 +79,7 @@ def _jobs(tier, b):
     for leaf in ["int09", "secure-aes", "list-int", "dict-typed", "str-norm"]:        # bound variables that exist but are empty
         out.append({"name": "nested+env/%s/own" % leaf, "shape": "nested+env", "leaf": leaf, "depth": b["depth"], "tier": tier, "keyfile": "own"})
     out.append({"name": "with-include", "kind": "include", "tier": tier})
+    out.append({"name": "transfer-and-late", "kind": "transfer", "tier": tier})
     return out + deep_jobs(tier)
 
 
@@ -529,6 +530,74 @@ def _kind(diffs):
     return "item" if "[" in p else ("nested" if "." in p else "root")
 
 
+def run_transfer(job, ctx):
+    """round trips after histories that involve a second object: (a) a list of configurations with secrets taken over from a
+    configuration of the same schema that uses ANOTHER key file (whole assignment, constructor keyword, extend, slice),
+    saved and loaded under the receiver's key file; (b) a persistent field declared under a key that the configuration
+    first held as an undeclared value (bytes, secret, typed list of bytes), then assigned and saved"""
+    import cincoconfig as cc
+    rows = ROWS if job["tier"] == "thorough" else QUICK_ROWS
+    only = job.get("only")
+    scenarios = ["adopt-assign", "adopt-ctor-kw", "adopt-extend", "adopt-slice", "late-bytes", "late-secure", "late-list-bytes", "late-bytes-nested"]
+    ka, kb = os.path.join(ctx.tmp, "tr-a.key"), os.path.join(ctx.tmp, "tr-b.key")
+    open(ka, "wb").write(bytes(range(32))); open(kb, "wb").write(bytes(range(64, 96)))
+    for sc in scenarios:
+        for fmt, opts in rows:
+            row = fmt + ("+" + ",".join("%s=%s" % kv for kv in sorted(opts.items())) if opts else "")
+            ident = [sc, row]
+            if only is not None and only != ident:
+                continue
+            s = cc.Schema(dynamic=True)
+            s.name = cc.StringField(default="n")
+            item = cc.Schema()
+            item.user = cc.StringField()
+            item.pw = cc.SecureField(method="aes")
+            item.inner.tok = cc.SecureField(method="xor")
+            s.accounts = cc.ListField(item)
+            s.sub = cc.Schema(dynamic=True)
+            s.sub.c = cc.IntField(default=1)
+            items = [{"user": "ann", "pw": "pw-ann-0123456789", "inner": {"tok": "tok-ann"}}, {"user": "bob", "pw": "pw-bob"}]
+            if sc.startswith("adopt"):
+                a = cc.Config(s, key_filename=ka)
+                a.accounts = items
+                if sc == "adopt-assign":
+                    b = cc.Config(s, key_filename=kb); b.accounts = a.accounts
+                elif sc == "adopt-ctor-kw":
+                    b = cc.Config(s, key_filename=kb, accounts=a.accounts)
+                elif sc == "adopt-extend":
+                    b = cc.Config(s, key_filename=kb); b.accounts = []; b.accounts.extend(a.accounts)
+                else:
+                    b = cc.Config(s, key_filename=kb); b.accounts = [{"user": "x"}]; b.accounts[0:1] = a.accounts
+            else:
+                b = cc.Config(s, key_filename=kb)
+                b.accounts = items      # (an unset list of configurations is the exploration jobs' subject, not this one's)
+                if sc == "late-bytes":
+                    b.late = "undeclared"; s.late = cc.BytesField(); b.late = b"\x00\xff\x10bin"
+                elif sc == "late-secure":
+                    b.late = "undeclared"; s.late = cc.SecureField(method="aes"); b.late = "late-secret-value"
+                elif sc == "late-list-bytes":
+                    b.late = [1]; s.late = cc.ListField(cc.BytesField()); b.late = [b"\x00\xfe", b"z"]
+                else:
+                    b.sub.late = "undeclared"; s.sub.late = cc.BytesField(); b.sub.late = b"\x01\x02\xfd"
+            want = cc.asdict(b)
+            case = {"kind": "transfer", "tier": job["tier"], "only": ident, "job": job.get("name") or job.get("job"), "name": job.get("name") or job.get("job")}
+            ctx.transitions += 1
+            try:
+                data = b.dumps(fmt, **opts)
+                back = cc.Config(s, key_filename=kb)
+                back.loads(data, fmt, **opts)
+                got = cc.asdict(back)
+            except Exception as exc:  # noqa
+                ctx.case(("transfer", sc, row), "transfer:raises", True)
+                ctx.violation("C02|transfer|%s|%s|raises" % (sc, fmt), "round trip after %s raised %r" % (sc, exc), case)
+                continue
+            ctx.case(("transfer", sc, row), "transfer:%s" % fmt, True)
+            if V.plain(got) != V.plain(want):
+                ctx.violation("C02|transfer|%s|%s|differs" % (sc, fmt), "after %s: saved %s, re-loaded %s" % (sc, V.show(want, 150), V.show(got, 150)), case)
+    ctx.traces += 1
+    ctx.sample({"transfer": scenarios})
+
+
 def run_job(job, ctx):
     single = job.get("single")
     if single and single.get("kind") == "deep":
@@ -539,6 +608,10 @@ def run_job(job, ctx):
         return run_include(single, ctx)
     if job.get("kind") == "include":
         return run_include(job, ctx)
+    if single and single.get("kind") == "transfer":
+        return run_transfer(single, ctx)
+    if job.get("kind") == "transfer":
+        return run_transfer(job, ctx)
     if single:
         m = Monitor(single["shape"], single["leaf"], single.get("tier", "quick"), single.get("keyfile", "own"), ctx.tmp)
         W.explore(ctx, m.spec, single["leaf"], 0, m, only=(single["hist"], single["op"]))
